@@ -12,12 +12,12 @@ E3 = "E3 cooperative scheduler + preemption-bounded DFS (harness/vsched, harness
 CHECKS = {
     "C17": ("model_checking", E1 + " + " + E3,
             "explicit-state enumeration (state x continuation) of snapshot/continue/restore histories on the real DbImpl + exhaustive 24-cell timeline table + preemption-bounded schedule exploration (with global-state-key pruning) of restore || reader || writer || Snapshot()/RootBucket user",
-            "Sequential: for every reachable state A of the index scenario (depth 1 quick / 2 thorough) and every continuation transaction: Snapshot, continuation, RestoreSnapshot; the full image equals A apart from the two markers, GetSnapshotId equals the returned id, each restore listener ran once, the first GetTimelineId issues a fresh id exactly once, the restored database answers reads and accepts every operation exactly like A (reference model), StreamToWriter yields an identical copy. Timeline bookkeeping: all 3 modes x marker x stored id x id-function outcome. Schedules: ALL interleavings with <= 2 (thorough: 3) preemptions at reloadLock operations, tracked spawns and in-transaction yield points; every transaction sees the old or the new database in full, the final image is restored or restored+writer, no deadlock, no panic.",
+            "Sequential: for every reachable state A of the index scenario (depth 1 quick / 2 thorough) and every continuation transaction: Snapshot, continuation, RestoreSnapshot; the full image equals A apart from the two markers, GetSnapshotId equals the returned id, each restore listener ran once, the first GetTimelineId issues a fresh id exactly once, the restored database answers reads and accepts every operation exactly like A (reference model), StreamToWriter yields an identical copy, and after every top-level call the reload lock is free again (a leaked lock is reported instead of blocking the restore). Timeline bookkeeping: all 3 modes x marker x stored id x id-function outcome. Schedules: ALL interleavings with <= 2 (thorough: 3) preemptions at reloadLock operations, tracked spawns and in-transaction yield points; every transaction sees the old or the new database in full, the final image is restored or restored+writer, no deadlock, no panic.",
             "bbolt API calls are atomic (its internal locks are not scheduling points); vsync.RWMutex reproduces Go's writer preference; one restore, one reader, one writer per schedule.",
             "DESIGN.md §4 C17"),
     "C18": ("model_checking", E3,
             "preemption-bounded exhaustive schedule exploration (cooperative scheduler over the real DbImpl/bbolt, state-key pruning) with serial-state oracle; helper pairs under every schedule and pool answer; separate free-running -race pass over all unordered pairs of bodies",
-            "ALL schedules with <= 2 (thorough: 3) preemptions of one writer committing two multi-operation transactions (entity, unique index, set index, link buckets) and 1 (thorough: 2) reader(s) that read a marker, two index-backed queries (with in-scan yields through an ExternalSymbol), the unique index, the set index and links inside one View: every reader tuple equals the serial tuple of exactly one committed state and the final image is the serial result. Every unordered pair of package-level helpers (Parse valid/invalid/type-error with every pooled-instance answer, GetSymbol, three error classifiers) returns its sequential result under every explored schedule. Data races: every unordered pair of helper, reader and writer bodies runs free under the race detector (20 repetitions x 3 goroutines x 5 calls).",
+            "ALL schedules with <= 2 (thorough: 3) preemptions of one writer committing two multi-operation transactions (entity, unique index, set index, link buckets) and 1 (thorough: 2) reader(s) that read a marker, two index-backed queries (with in-scan yields through an ExternalSymbol), the unique index, the set index and links inside one View: every reader tuple equals the serial tuple of exactly one committed state and the final image is the serial result. Every unordered pair of package-level helpers (Parse valid/invalid/type-error with every pooled-instance answer, GetSymbol incl. two different elements of one map symbol, three error classifiers) returns its sequential result under every explored schedule. Data races: every unordered pair of helper, reader and writer bodies runs free under the race detector (20 repetitions x 3 goroutines x 5 calls) and every body whose answer no writer changes must also return its sequential result there.",
             "The cooperative scheduler cannot see unsynchronised accesses; that clause rests on the race detector over the enumerated body pairs (a detector, not an enumeration of memory orderings). bbolt API calls are atomic.",
             "DESIGN.md §4 C18"),
     "C07": ("fault_enumeration", E1,
@@ -32,7 +32,7 @@ CHECKS = {
             "DESIGN.md §4 C08"),
     "C09": ("model_checking", E1,
             "explicit-state BFS for soundness on every reachable healthy state + exhaustive enumeration of corruption subsets on three base states against an independent reference differ/repairer",
-            "On every reachable state of the kitchen-sink exploration (depth 3/4) check-only and fix runs must report nothing and change nothing. On three base states ALL subsets of size <= 2 (thorough: 3) of 27 raw-bucket corruption atoms (unique: missing/dangling/wrong-target/stale; set: missing/extra/dangling id, empty key, missing key, stray key; fk: missing/extra/dangling back-reference, dangling reference nullable and not, null in non-nullable; link: one-sided either side, dangling; genuine unique conflict) are applied in an earlier transaction and in the same transaction as the fix: check-only reports every item of the reference diff and leaves the image unchanged, the fix run reaches the reference-repaired image, the re-check reports only unfixable conflicts and changes nothing.",
+            "On every reachable state of the kitchen-sink exploration (depth 3/4) - committed, and uncommitted inside the transaction that just executed the operation - check-only and fix runs must report nothing and change nothing. On three base states ALL subsets of size <= 2 (thorough: 3) of 27 raw-bucket corruption atoms (unique: missing/dangling/wrong-target/stale; set: missing/extra/dangling id, empty key, missing key, stray key; fk: missing/extra/dangling back-reference, dangling reference nullable and not, null in non-nullable; link: one-sided either side, dangling; genuine unique conflict) are applied in an earlier transaction and in the same transaction as the fix: check-only reports every item of the reference diff and leaves the image unchanged, the fix run reaches the reference-repaired image, the re-check reports only unfixable conflicts and changes nothing.",
             "Reports are matched by the ids/values they mention; extra reports on corrupted databases are not judged; empty link buckets created by reading links and zero-length vs typed-nil null values are normalised.",
             "DESIGN.md §4 C09"),
     "C13": ("exploration", E2,
@@ -42,12 +42,12 @@ CHECKS = {
             "DESIGN.md §4 C13"),
     "C14": ("exploration", E2,
             "exhaustive enumeration of element sets x cursor kinds x Next/Seek scripts against a sorted-slice reference cursor",
-            "For every subset of {\"\",a,a\\x00,ab,b} (incl. the empty set) every cursor kind obtainable through the exported API (46 kinds: forward/reverse raw and typed bucket cursors, index value/key cursors, related-entity, link, ref-counted link, set-symbol runtime, stacked, IterateIds/IterateValidIds, IteratorMatchingAllOf/AnyOf with 0/1/2 values, filtered, tree, union, empty) is driven by ALL scripts of up to 3 (thorough: 4) steps over {Next, Seek(v) for 8 targets}; validity and Current() bytes are compared with the reference after every step and the cursor is then drained.",
+            "For every subset of {\"\",a,a\\x00,ab,b} (incl. the empty set) every cursor kind obtainable through the exported API (49 kinds: forward/reverse raw and typed bucket cursors, index value/key cursors, related-entity, link, ref-counted link, set-symbol runtime incl. one runtime symbol re-opened across rows, stacked, IterateIds/IterateValidIds, IteratorMatchingAllOf/AnyOf with 0/1/2 values, filtered, tree, union, empty) is driven by ALL scripts of up to 3 (thorough: 4) steps over {Next, Seek(v) for 8 targets}; validity and Current() bytes are compared with the reference after every step and the cursor is then drained.",
             "Next() on an exhausted cursor is outside the alphabet; the set-symbol runtime cursor is positioned through SeekToString.",
             "DESIGN.md §4 C14"),
     "C10": ("exploration", E2,
             "bounded-exhaustive enumeration of token sequences, short byte strings, operand-type mixes and token mutations; oracle = no panic + independent grammar recogniser + evaluation on three datasets",
-            "ALL token sequences up to length 3 (thorough: 4) over 44 lexemes (one or two per token class, identifiers of every symbol kind, three unrecognised characters) with and without blanks, all byte strings up to length 3 over 44 bytes, every symbol-kind x operator x literal-type mix, and single-token mutations of valid sentences are parsed; nothing may panic, everything accepted must be a sentence of ZitiQl.g4 according to an independently written recogniser (so unrecognised characters are never silently dropped) and must evaluate on an empty store, an all-null entity and a populated store without panicking; parse sequences over pooled lexer/parser instances must not leak state.",
+            "ALL token sequences up to length 3 (thorough: 4) over 44 lexemes (one or two per token class, identifiers of every symbol kind, three unrecognised characters) with and without blanks, all byte strings up to length 3 over 44 bytes, every symbol-kind x operator x literal-type mix, and single-token mutations of valid sentences are parsed; nothing may panic, everything accepted must be a sentence of ZitiQl.g4 according to an independently written recogniser (so unrecognised characters are never silently dropped) and must evaluate on an empty store, an all-null entity and a populated store without panicking; every input additionally goes through an objectz.ObjectStore (a second symbol table, same three datasets) with the same no-panic and accepted-implies-in-grammar oracle; parse sequences over pooled lexer/parser instances must not leak state.",
             "The recogniser (maximal-munch lexer + memoised backtracking matcher of the parser rules) is trusted as the grammar oracle; only 'accepted implies in grammar' is demanded. Debug-parse diagnostic counts are not part of the property.",
             "DESIGN.md §4 C10"),
     "C11": ("exploration", E2,
@@ -57,7 +57,7 @@ CHECKS = {
             "DESIGN.md §4 C11"),
     "C12": ("exploration", E2,
             "exhaustive enumeration of boolean skeletons (all and/or tree shapes up to 4/5 atoms, up to 2 negations) x three parenthesisation styles x all 2^n assignments; plus keyword-case/whitespace re-spellings on a real store",
-            "Every and/or/not skeleton up to the bound is printed with only the parentheses the documented precedence requires, fully parenthesised and with redundant parentheses; the parsed query's truth table over all assignments must equal the skeleton's. Keyword and word-operator case variants, whitespace variants and redundant outer parentheses must not change results (including the negated word operators keeping their negation).",
+            "Every and/or/not skeleton up to the bound is printed with only the parentheses the documented precedence requires, fully parenthesised and with redundant parentheses; the parsed query's truth table over all assignments must equal the skeleton's. Keyword and word-operator case variants, every blank replaced by TAB/LF/CR (one at a time and all at once) or doubled where the grammar has WS+, and redundant outer parentheses must not change results (including the negated word operators keeping their negation).",
             "Bare prefix `not` (without parentheses) is not compared: the property does not fix its binding strength.",
             "DESIGN.md §4 C12"),
     "C20": ("exploration", E2,
@@ -67,42 +67,42 @@ CHECKS = {
             "DESIGN.md §4 C20"),
     "C02": ("exploration", E2,
             "bounded-exhaustive enumeration of sort specifications x skip/limit x predicates x all assignments of the sort fields; differential against a reference sorter/pager over four query routes",
-            "All sort specifications of 0..2 fields (thorough: every pair, 3 and 5 fields), every direction spelling, 56 skip/limit combinations (absent, none, negative, 0, beyond the end) and four predicate shapes are run on ALL assignments of the sort fields over {null,v1,v2} on 4 entities; ids, order and total count from QueryIds, QueryIdsC on a re-used query, QueryWithCursorC over an index cursor and IterateIds must equal the reference.",
+            "All sort specifications of 0..2 fields (thorough: every pair, 3 and 5 fields), every direction spelling, 56 skip/limit combinations (absent, none, negative, 0, beyond the end) and four predicate shapes are run on ALL assignments of the sort fields over {null,v1,v2} on 4 entities; ids, order and total count from QueryIds, QueryIdsC on a re-used query, QueryWithCursorC over an index cursor and IterateIds must equal the reference. Boundary-value pass: single-field sorts over extreme integers, denormal/huge floats, instants outside the int64-nanosecond range and 1 ns apart, prefix/case/multi-byte strings - all assignments on 3 entities.",
             "4 entities; domains of 3 values (2 when two or more sort fields); dotted sort fields are not supported by the engine and not generated.",
             "DESIGN.md §4 C02"),
     "C19": ("exploration", E2,
             "bounded-exhaustive differential: object store vs bolt store vs reference on every scalar filter atom/composition and every sort/skip/limit query over all small datasets",
-            "Every scalar-symbol filter of C01 and every sort/paging query of C02 is run on objectz.ObjectStore and on a bolt store holding the same values for ALL assignments of the mentioned fields; ids, order and total count must agree with each other and with the reference.",
+            "Every scalar-symbol filter of C01 and every sort/paging query of C02 is run on objectz.ObjectStore and on a bolt store holding the same values for ALL assignments of the mentioned fields; ids, order and total count must agree with each other and with the reference; plus the boundary-value pass of C01/C02 (comparisons against and sorts over extreme values of every type).",
             "Fields of the five scalar types or null; 2 entities for filters, 4 for paging.",
             "DESIGN.md §4 C19"),
     "C01": ("exploration", E2,
             "bounded-exhaustive enumeration of filter atoms and compositions x all field assignments over tiny domains; differential against an independent reference evaluator on real bolt stores",
-            "Every (symbol kind x operator x literal) atom the grammar and typer admit - scalars of all five types, any-typed map element, fk, dotted one/two-hop symbols, anyOf/allOf/count/isEmpty over direct (seekable), dotted (scanned) and link sets, sub-queries - and all 2-atom (thorough: 3-atom) compositions are evaluated on ALL assignments of the mentioned fields; QueryIds, QueryIdsC and IterateIds must each return exactly the ids the reference evaluator selects.",
+            "Every (symbol kind x operator x literal) atom the grammar and typer admit - scalars of all five types, any-typed map element, fk, dotted one/two-hop symbols, anyOf/allOf/count/isEmpty over direct (seekable), dotted (scanned) and link sets, sub-queries - and all 2-atom (thorough: 3-atom) compositions are evaluated on ALL assignments of the mentioned fields; QueryIds, QueryIdsC and IterateIds must each return exactly the ids the reference evaluator selects. Boundary-value pass: every comparison operator against every boundary literal (extreme integers, denormal/huge floats, instants outside the int64-nanosecond range and 1 ns apart, prefix/case/multi-byte strings) on all assignments of 3 entities.",
             "Domains: 3-7 values per field incl. null/empty, 2 entities (3 for single-field families in thorough). Rows whose answer the documentation does not settle (any-typed value of a type the literal cannot read, bool/time-to-string, count over null elements) are skipped and counted. Mixed and/or always parenthesised (C12).",
             "DESIGN.md §4 C01"),
     "C03": ("model_checking", E1,
             "explicit-state BFS to closure over real stores; every state x every transaction program vs reference model (complete database image + API reads)",
-            "All reachable canonical database images of the unique/set index scenario are enumerated to closure; on every transition the outcome class and the complete bucket image are compared with a reference model, so index buckets are checked byte-for-byte against entity-derived state.",
+            "All reachable canonical database images of the unique/set index scenario are enumerated to closure; on every transition the outcome class and the complete bucket image are compared with a reference model, so index buckets are checked byte-for-byte against entity-derived state; one and two operations per transaction.",
             "Tiny universes (2-3 ids, 3 names, 3 aliases, 4 role sets); bbolt atomicity trusted; equal masked dumps are merged (same futures).",
             "DESIGN.md §4 C03"),
     "C04": ("model_checking", E1,
             "explicit-state BFS to closure per foreign-key wiring (7 wirings + self-referential), plain and hostile id strings; reference model comparison of complete image, back-reference reads and error classes",
-            "Every reachable state of each wiring is enumerated to closure; restrict/cascade outcome, surviving entities and back-reference buckets are compared with a reference model on every transition, repeated with ids containing quotes, backslashes, keywords and control characters.",
+            "Every reachable state of each wiring is enumerated to closure; restrict/cascade outcome, surviving entities and back-reference buckets are compared with a reference model on every transition, repeated with ids containing quotes, backslashes, keywords and control characters, and with three referrers where the target is deleted in the same transaction as an earlier change of the referencing store.",
             "2 targets x 2 referrers (3 self-referential entities); cascade over a reference cycle is probed in a child process (known finding) and not executed in-process.",
             "DESIGN.md §4 C04"),
     "C05": ("model_checking", E1,
             "explicit-state BFS to closure over link / ref-counted link operations from both sides + exhaustive (current set x requested list) enumeration for SetLinks",
-            "All reachable link states (symmetric and ref-counted) are enumerated to closure with every operation issued from either side; both directions and both counts are compared byte-for-byte with the model; SetLinks is checked for every current set over 4 ids and every request list up to length 3/4 including duplicates, unsorted input and a missing id.",
+            "All reachable link states (symmetric and ref-counted) are enumerated to closure with every operation issued from either side, one and two operations per transaction; both directions and both counts are compared byte-for-byte with the model; SetLinks is checked for every current set over 4 ids and every request list up to length 3/4 including duplicates, unsorted input and a missing id.",
             "2x2 (2x3) entities, counts bounded by 2/3 (Increment above the bound is skipped on both sides), negative counts outside the property's domain.",
             "DESIGN.md §4 C05"),
     "C06": ("model_checking", E1,
             "explicit-state BFS (depth-bounded) over the kitchen-sink schema; every reachable state x every delete; ValidateDeleted + byte scan + complete image vs reference model",
-            "Histories up to the depth bound over a schema combining every index/constraint/link type and both child-store kinds are enumerated; after every delete the repository's own oracle, a byte-level search for the id and the full reference image (which cannot contain the id) are checked; re-creation is part of the alphabet so 'as if never existed' is the model comparison on successor states.",
+            "Histories up to the depth bound over a schema combining every index/constraint/link type and both child-store kinds are enumerated; after every delete the repository's own oracle, a byte-level search for the id and the full reference image (which cannot contain the id) are checked; re-creation is part of the alphabet so 'as if never existed' is the model comparison on successor states; a second pass runs <any operation>; <delete> inside one transaction from every state up to depth 3/4.",
             "Depth bound 5 (quick) / transition and state caps (thorough) - not a closure; reported in evidence as exhaustive:false with the depth completed.",
             "DESIGN.md §4 C06"),
     "C15": ("model_checking", E1,
             "explicit-state BFS to closure over operations routed through parent, plain child and extended child store; reads through all three stores vs reference model",
-            "All reachable states of a parent store with a plain and an extended child store are enumerated to closure; on every transition the complete image, FindById/LoadById/QueryIds (both scanners)/IterateIds/IterateValidIds through each store and the parent's index reads are compared with the model.",
+            "All reachable states of a parent store with a plain and an extended child store are enumerated to closure; on every transition the complete image, FindById/LoadById/QueryIds (both scanners)/IterateIds/IterateValidIds through each store and the parent's index reads are compared with the model; all two-operation transactions from every state up to depth 2/3.",
             "2 entity ids; promoting an existing parent through child Create and deleting a plain parent through the plain child store are unspecified and excluded.",
             "DESIGN.md §4 C15"),
     "C16": ("model_checking", E1,
